@@ -106,7 +106,10 @@ def chunksAux : Nat → Bytes → Bytes → Option (Bytes × Bytes)
     match crlfLine s with
     | none => none
     | some (line, rest) =>
-      match parseHex (trimOWS line) with     -- BWS after the size is tolerated
+      -- BWS after the size is tolerated; hertz reads at most 15 hex digits (maxHexIntChars) and answers 400
+      -- to longer size lines, which is a safe refusal: such streams are outside the comparison
+      if (trimOWS line).length > 15 then none else
+      match parseHex (trimOWS line) with
       | none => none
       | some 0 => some (acc, rest)
       | some n =>
